@@ -1,9 +1,9 @@
 package main
 
 import (
-	"go/types"
 	"fmt"
 	"go/token"
+	"go/types"
 	"strings"
 
 	"golang.org/x/tools/go/ssa"
@@ -793,7 +793,9 @@ func handlerFuncs(c *Ctx) []*ssa.Function {
 func ruleC09_4(c *Ctx, r *Rep) {
 	// Publish: every PublishMessage.Execute in the handler receives the tx of one enclosing DoTx closure
 	if h := r.Anchor("C09.4", "(*services.publisherServer).Publish"); h != nil {
-		execs := c.callsInOp(h, func(cal *ssa.Function, _ ssa.CallInstruction) bool { return fnIs(cal, modPath+"/actions", "PublishMessage.Execute") })
+		execs := c.callsInOp(h, func(cal *ssa.Function, _ ssa.CallInstruction) bool {
+			return fnIs(cal, modPath+"/actions", "PublishMessage.Execute")
+		})
 		ok := len(execs) > 0
 		for _, ci := range execs {
 			tx, isP := ci.Common().Args[2].(*ssa.Parameter)
@@ -809,8 +811,12 @@ func ruleC09_4(c *Ctx, r *Rep) {
 	}
 	// doAcksNacks: ack and nack in one tx
 	if f := r.Anchor("C09.4", "(*actions.MessageStreamer).doAcksNacks"); f != nil {
-		a := callsIn(f, true, func(cal *ssa.Function, _ ssa.CallInstruction) bool { return fnIs(cal, modPath+"/actions", "AckDeliveries.Execute") })
-		n := callsIn(f, true, func(cal *ssa.Function, _ ssa.CallInstruction) bool { return fnIs(cal, modPath+"/actions", "NackDeliveries.Execute") })
+		a := callsIn(f, true, func(cal *ssa.Function, _ ssa.CallInstruction) bool {
+			return fnIs(cal, modPath+"/actions", "AckDeliveries.Execute")
+		})
+		n := callsIn(f, true, func(cal *ssa.Function, _ ssa.CallInstruction) bool {
+			return fnIs(cal, modPath+"/actions", "NackDeliveries.Execute")
+		})
 		ok := len(a) == 1 && len(n) == 1
 		if ok {
 			ta, ia := a[0].Common().Args[2].(*ssa.Parameter)
